@@ -267,6 +267,21 @@ CLAIMED = {
         technique="TLA+ exact-lattice spec + TLC enumeration, replay into System.assemble; TLC trace validation of recorded assemblies",
         ref="5/C16",
     ),
+    "C03": dict(
+        level="model_checking",
+        text="RotationDerivatives.tla: along a ray psi = eps n (integer vector n of integer length, the scale eps a symbol) the maps Exp_SO3, T_SO3, "
+             "T_SO3_inv are linear in sin a, cos a, cot(a/2) (a = |n| eps) with Laurent-polynomial coefficients in eps. TLC evaluates the maps in dual "
+             "arithmetic over such elements (d sin = cos da, d cos = -sin da, d cot(a/2) = -(1 + cot^2)/2 da) and so derives every entry of their "
+             "derivatives exactly, for every eps at once; it checks that the axis is fixed by all three maps (also to first order) and that the window "
+             "of powers of eps suffices. For every case (6 rays x 4 directions) the harness substitutes eps = 2^-j, j up to 30 (|psi| down to 1e-9; "
+             "psi exactly representable) and the limit eps -> 0, evaluates TLC's elements with sin, cos, cot computed to 40 digits in rational "
+             "arithmetic and compares with Exp_SO3_psi, T_SO3_psi, T_SO3_inv_psi, T_SO3_dot, Exp_SE3_h and the maps themselves.",
+        note="Claimed for the rotation-vector maps. Not covered: Log_SO3_A and Log_SE3_H (derivatives with respect to matrix entries). The quaternion "
+             "tangent maps T_SO3_quat_P / T_SO3_inv_quat_P are rational and decided under C01. Comparison tolerance 1e-8 relative to 1 + |value| "
+             "(the routines' closed forms are accurate to a few 1e-9 at |psi| ~ 1e-8). A corrupted element must evaluate differently (self-test).",
+        technique="TLA+ exact symbolic differentiation (dual numbers over Laurent-trigonometric elements) by TLC, results replayed into the rotation routines at exactly representable points",
+        ref="5/C03",
+    ),
     "C04": dict(
         level="model_checking",
         text="RigidKinematics.tla gives position, velocity, acceleration of a body point, the kinematic equation, the gyroscopic force, "
@@ -459,7 +474,6 @@ CLAIMED = {
 }
 
 NOT_APPLICABLE = {
-    "C03": "derivatives of transcendental SO(3)/SE(3) maps down to 1e-9 angles: real analysis / high-precision arithmetic, no state, no rational core for TLC (32-bit integers, no reals)",
 }
 
 NOT_BUILT = "in family (see DESIGN.md section 5) but its check is not built yet"
